@@ -18,8 +18,8 @@ package crypto
 
 //@ -- PopUpTo(m, n): number of positions b < n with BitSet(m, b); PopUpTo(m, 64) is the mask size. Defined by the two axioms.
 //@ uninterp PopUpTo(m uint64, n int) int
-//@ axiom forall m uint64 :: { PopUpTo(m, 0) } PopUpTo(m, 0) == 0
-//@ axiom forall m uint64, n int :: { PopUpTo(m, n) } 0 < n ==> PopUpTo(m, n) == PopUpTo(m, n - 1) + (BitSet(m, n - 1) ? 1 : 0)
+//@ axiom forall m int :: { PopUpTo(m, 0) } PopUpTo(m, 0) == 0
+//@ axiom forall m int, n int :: { PopUpTo(m, n) } 0 < n ==> PopUpTo(m, n) == PopUpTo(m, n - 1) + (BitSet(m, n - 1) ? 1 : 0)
 
 //@ -- every set mask position is inside the key vector and selects a non-nil key
 //@ spec MaskInRange(m uint64, publics []*Key) bool =
@@ -29,37 +29,47 @@ package crypto
 
 //@ -- ChalOK / ChalOf: success and 32-byte canonical encoding of the challenge scalar that (*CosiSignature).Challenge computes.
 //@ -- They are functions of the arguments AND of the heap cells Challenge may read (bytes: c.Signature and the keys behind
-//@ -- publics; uint64: c.Mask; *Key: the pointer block of publics) -- `reads` makes those heap components arguments.
-//@ uninterp ChalOK(c *CosiSignature, publics []*Key, message Hash) bool reads byte, uint64, *Key
-//@ uninterp ChalOf(c *CosiSignature, publics []*Key, message Hash) [32]byte reads byte, uint64, *Key
+//@ -- publics; uint64: c.Mask; publics[..]: the pointer block of publics) -- `reads` makes those heap components arguments.
+//@ uninterp ChalOK(c *CosiSignature, publics []*Key, message Hash) bool reads byte, uint64, publics[..]
+//@ uninterp ChalOf(c *CosiSignature, publics []*Key, message Hash) [32]byte reads byte, uint64, publics[..]
 //@ -- ScBytes: canonical little-endian encoding of an edwards25519 scalar value.
 //@ uninterp ScBytes(s edwards25519.Scalar) [32]byte
 //@ -- RespOf: the Schnorr share x*a + r (encoded) as an uninterpreted function of the inputs of Response.
-//@ uninterp RespOf(c *CosiSignature, privateKey *Key, random *Key, publics []*Key, message Hash) [32]byte reads byte, uint64, *Key
+//@ uninterp RespOf(c *CosiSignature, privateKey *Key, random *Key, publics []*Key, message Hash) [32]byte reads byte, uint64, publics[..]
 
-//@ assume func (c *CosiSignature) Challenge
+//@ -- Challenge is VERIFIED for what can be verified (no panic, writes nothing that existed, fails whenever the mask does not
+//@ -- select a non-empty set of non-nil, decodable keys inside the key vector). The `assumes` clauses are T-CRYPTO: success
+//@ -- and value of the challenge are deterministic functions of the inputs (sha512 and the group law are not interpreted).
+//@ func (c *CosiSignature) Challenge
+//@   property C12, C13
 //@   requires c != nil
 //@   modifies nothing
-//@   ensures err == nil <==> ChalOK(c, publics, message)
-//@   ensures err != nil ==> result0 == nil
-//@   ensures err == nil ==> result0 != nil && ScBytes(*result0) == ChalOf(c, publics, message)
-//@ -- structural consequence of its first statement `A, err := c.aggregatePublicKey(publics); if err != nil { return nil, err }`
-//@ -- (that method is verified with exactly this postcondition in zz_contracts_c13_verif.go):
-//@   ensures err == nil ==> MaskInRange(c.Mask, publics) && PopUpTo(c.Mask, 64) > 0
+//@   ensures [fail] err != nil ==> result0 == nil
+//@   ensures [ok] err == nil ==> result0 != nil && fresh(result0) && MaskInRange(c.Mask, publics) && PopUpTo(c.Mask, 64) > 0
+//@   assumes err == nil <==> ChalOK(c, publics, message)
+//@   assumes err == nil ==> ScBytes(*result0) == ChalOf(c, publics, message)
+//@ -- SetUniformBytes cannot fail on the 64-byte digest: its error return is dead code
+//@   unreachable return@3
 
-//@ -- Response panics (does not return) when *privateKey or *random is not a canonical scalar; a normal return is described here.
-//@ assume func (c *CosiSignature) Response
+//@ -- Response: verified likewise. Its two explicit panics (non-canonical private key / nonce scalar) are specified behaviour:
+//@ -- callers must rule them out, except on the path where the challenge cannot be computed (the error return comes first).
+//@ func (c *CosiSignature) Response
+//@   property C12
 //@   requires c != nil && privateKey != nil && random != nil
+//@   panics when ChalOK(c, publics, message) && (!CanonicalScalar(seq(*privateKey)) || !CanonicalScalar(seq(*random)))
 //@   modifies nothing
-//@   ensures err != nil ==> result0 == nil
-//@   ensures err == nil ==> result0 != nil && fresh(result0) && *result0 == RespOf(c, privateKey, random, publics, message)
+//@   ensures [fail] err != nil ==> result0 == nil
+//@   ensures [ok] err == nil ==> result0 != nil && fresh(result0)
+//@   ensures [iff] err == nil <==> old(ChalOK(c, publics, message))
+//@   assumes err == nil ==> *result0 == old(RespOf(c, privateKey, random, publics, message))
 
 // ───────────── nonce.go ─────────────
 
 //@ -- representation invariant of the shared nonce state. Established by newCosiNonce (the only place a `nonce` is built),
 //@ -- preserved by respond (the only writer).
 //@ spec NonceInv(n *nonce) bool = n != nil && (n.used ==> n.random == nil) &&
-//@     (!n.used ==> n.random != nil && n.random != &n.challenge && n.random != &n.response && n.random != &n.commitment)
+//@     (!n.used ==> n.random != nil && n.random != &n.challenge && n.random != &n.response && n.random != &n.commitment &&
+//@                  CanonicalScalar(seq(*n.random)))
 
 //@ -- two-state: the nonce state is exactly what it was at entry (including the secret bytes behind random)
 //@ spec NonceSame(n *nonce) bool = n.used == old(n.used) && n.random == old(n.random) && n.challenge == old(n.challenge) &&
@@ -86,6 +96,9 @@ package crypto
 //@ func (n *nonce) respond
 //@   property C12
 //@   requires NonceInv(n) && signature != nil && private != nil && ErrCosiNonceReuse != nil
+//@ -- the signer's long-term private key is a canonical scalar (otherwise Response panics: no response leaves the node);
+//@ -- established by the callers in kernel/cosi.go (node.Signer.PrivateSpendKey, a key the node derived itself)
+//@   requires CanonicalScalar(seq(*private))
 //@   modifies n.random, n.challenge, n.response, n.used, *n.random
 //@   ensures [inv] NonceInv(n)
 //@   ensures [chal-fail] C12ChalFail(n, signature, publics, message, result0, err)
@@ -101,6 +114,7 @@ package crypto
 //@ func (n *CosiNonce) Response
 //@   property C12
 //@   requires n != nil && NonceInv(n.state) && signature != nil && private != nil && ErrCosiNonceReuse != nil
+//@   requires CanonicalScalar(seq(*private))
 //@   modifies n.state.random, n.state.challenge, n.state.response, n.state.used, *n.state.random
 //@   ensures [inv] NonceInv(n.state) && n.state == old(n.state)
 //@   ensures [chal-fail] C12ChalFail(n.state, signature, publics, message, result0, err)
